@@ -140,6 +140,76 @@ func c19ScanComplete(c *core.Ctx) {
 	c.Check(star, "`*` drops every annotation snippet", c.Pos(fn.Pos()), "a `*` keyword at any position returns before the store", "no `keyword == \"*\"` test inside the keyword loop whose true edge returns before the store: `*` at a later position of the list is not honoured")
 	c.Check(hit, "a first-token match drops the snippet", c.Pos(fn.Pos()), "firstToken(line) == keyword returns before the store", "no first-token comparison inside the loop whose true edge returns before the store")
 	c.Check(empty, "an empty keyword only skips itself", c.Pos(fn.Pos()), "", "the empty-keyword test does not continue with the next keyword")
+	// every line of the snippet is compared with every (non-empty) keyword: inside the line loop the
+	// comparison lies on every path to the next line, and inside the keyword loop the line loop lies on
+	// every path to the next keyword except the empty-keyword skip.
+	var testBlk, emptyBlk *ssa.BasicBlock
+	for _, b := range fn.Blocks {
+		ifi, ok := b.Instrs[len(b.Instrs)-1].(*ssa.If)
+		if !ok || !hdr.Dominates(b) {
+			continue
+		}
+		k := core.Key(ifi.Cond)
+		switch {
+		case strings.Contains(k, ".firstToken(") && strings.Contains(k, " == ") && strings.Contains(k, ".DisableKeywords["):
+			testBlk = b
+		case strings.HasSuffix(k, `== "")`) && strings.Contains(k, ".DisableKeywords["):
+			emptyBlk = b
+		}
+	}
+	if testBlk == nil {
+		return
+	}
+	inner := core.InnermostLoop(fn, testBlk)
+	var outer *core.Loop
+	for _, l := range core.Loops(fn) {
+		if l.Header == hdr {
+			outer = l
+		}
+	}
+	if inner == nil || outer == nil || inner.Header == hdr {
+		c.Violated("every line is compared with every keyword", c.Pos(fn.Pos()), "the first-token comparison is not inside a loop over the lines nested in the loop over the keywords")
+		return
+	}
+	ok := true
+	detail := ""
+	for _, l := range inner.Latch {
+		if !testBlk.Dominates(l) {
+			ok = false
+			detail = "inside the loop over the lines a path reaches the next line without passing the first-token comparison (" + at(c, l.Instrs[len(l.Instrs)-1]) + "): some lines are not checked"
+		}
+	}
+	for b := range inner.Blocks {
+		if b == inner.Header {
+			continue
+		}
+		for _, sx := range b.Succs {
+			if !inner.Blocks[sx] && outer.Blocks[sx] {
+				ok = false
+				detail = "the loop over the lines is left before its last line and the scan continues with the next keyword"
+			}
+		}
+	}
+	if w := (core.PathQuery{Fn: fn, Start: hdr.Instrs[len(hdr.Instrs)-1], Target: func(in ssa.Instruction) bool {
+		for _, l := range outer.Latch {
+			if l == emptyBlk && l.Succs[0] == hdr && l.Succs[1] != hdr {
+				continue // the empty-keyword skip itself
+			}
+			if in == l.Instrs[len(l.Instrs)-1] {
+				return true
+			}
+		}
+		return false
+	}, Barrier: func(in ssa.Instruction) bool { return in.Block() == inner.Header }, EdgeOK: func(from *ssa.BasicBlock, succ int) bool {
+		if from == hdr && succ == 1 {
+			return false
+		}
+		return !(emptyBlk != nil && from == emptyBlk && succ == 0)
+	}}).Find(); w != nil && ok {
+		ok = false
+		detail = "a keyword is skipped without scanning the lines (other than the empty keyword): " + w.Describe(c.Env)
+	}
+	c.Check(ok, "every line is compared with every keyword", c.Pos(fn.Pos()), "the comparison dominates every continuation of the line loop; the line loop is on every path to the next keyword but the empty-keyword skip", detail)
 }
 
 func c19OneWriter(c *core.Ctx) {
